@@ -475,6 +475,23 @@ def rule_t4(chk: Check, C: Classes):
                          and c.func.attr == "artifical_rule_from_gather"]
                 chk.require(len(calls) == 1 and [norm_stmt(a) for a in calls[0].args] == ["node"], R, f"{cm}.visit_Gather",
                             f"{rel}:{fn.lineno}", "the stock call maker must delegate a gather to artifical_rule_from_gather(node)")
+    # who may emit a literal match: `self.expect(...)` text is produced by the leaf handlers only — anything else that assembles it
+    # bypasses the bookkeeping done there (a word used only as look-ahead operand / separator would never reach the KEYWORDS table,
+    # and NAME would then accept it)
+    OWNERS = {"visit_StringLeaf", "visit_Forced", "visit_NameLeaf"}
+    for cm in CALLMAKERS:
+        for m, (rel, owner, fn) in sorted(C.methods(cm).items()):
+            if owner not in CALLMAKERS:
+                continue
+            chk.count(R)
+            hits = [n for n in ast.walk(fn) if isinstance(n, ast.Constant) and isinstance(n.value, str) and "self.expect" in n.value
+                    and "self.expect_forced" not in n.value.replace("self.expect_forced(self.expect(", "")]
+            if m in OWNERS:
+                chk.ok(R, f"{owner}.{m}:literal-owner", f"{rel}:{fn.lineno}")
+            else:
+                chk.require(not hits, R, f"{owner}.{m}:literal-owner", f"{rel}:{fn.lineno}",
+                            f"`{owner}.{m}` assembles a `self.expect` call itself instead of going through the leaf handler: the literal is "
+                            f"then never registered as a keyword / soft keyword, so the generated NAME matcher accepts the word")
     _artificial_rule_facts(chk, C)
     # the runtime side of the gather call: Parser.gathered(func, sep, *sep_args) — element is the first parameter
     sub = _parse("peg_parser/subheader.py")
@@ -882,6 +899,10 @@ class EvalError(Exception):
     pass
 
 
+class Marker(Exception):
+    """Raised by a fake collaborator handed to evaluated code (its error-raising helper): passes through the evaluator."""
+
+
 class Crash(EvalError):
     """The evaluated code itself raised on the given input (as opposed to leaving the evaluable subset)."""
 
@@ -914,7 +935,7 @@ def _mini_eval(fn: ast.FunctionDef, env: dict, allowed_calls: set[str], max_step
             # names are looked up in one namespace (globals) so that generator expressions, which have their own scope, see them
             env["__builtins__"] = SAFE
             return eval(compile(ast.fix_missing_locations(ast.Expression(body=e)), "<c17>", "eval"), env)  # noqa: S307
-        except EvalError:
+        except (EvalError, Marker):
             raise
         except Exception as ex:
             raise Crash(f"{type(ex).__name__}: {ex}")
@@ -1273,6 +1294,21 @@ def rule_t6(chk: Check, C: Classes):
     chk.require(len(lr) >= 2 and len(ld) >= 2 and len(picks) == 1, R, "compute_left_recursives:marks", f"{rel2}:{fn.lineno}",
                 f"every member of a component of size > 1, and every rule with a self-edge, is marked left-recursive; one leader per component, "
                 f"the least of the candidates: {lr} {ld} {picks}")
+    # ... and every cycle is looked at: the cycle enumeration is started from every vertex of the component (a depth-first walk from
+    # one vertex does not list the cycles that do not pass through it)
+    chk.count(R)
+    ok_start = False
+    for f_ in scope:
+        for loop in [n for n in ast.walk(f_) if isinstance(n, ast.For)]:
+            if not (isinstance(loop.target, ast.Name) and norm_stmt(loop.iter) in ("scc", "sorted(scc)", "list(scc)", "set(scc)")):
+                continue
+            for c in ast.walk(loop):
+                if isinstance(c, ast.Call) and norm_stmt(c.func).endswith("find_cycles_in_scc") and len(c.args) == 3 and \
+                        isinstance(c.args[2], ast.Name) and c.args[2].id == loop.target.id:
+                    ok_start = True
+    chk.require(ok_start, R, "compute_left_recursives:cycles-from-every-vertex", f"{rel2}:{fn.lineno}",
+                "the cycles of a left-recursive component must be enumerated from every one of its vertices; started from a single vertex, a "
+                "cycle that avoids it is never seen and a rule off that cycle can be chosen as leader (unbounded recursion in the parser)")
     fn = next((n for n in _parse(rel2).body if isinstance(n, ast.FunctionDef) and n.name == "make_first_graph"), None)
     chk.count(R)
     if fn is None:
